@@ -1,6 +1,25 @@
 ALL = ["C%02d" % i for i in range(1, 21)]
 
 CLAIMED = {
+    "C06": dict(
+        text="Lean 4 theorems over an executable model of the FunToken registry and of every flow that moves value between the bank "
+             "side and the ERC20 side (CreateFunToken from coin / from ERC20 with both duplicate checks, MsgConvertCoinToEvm in both "
+             "directions, precompile sendToBank / sendToEvm / bankMsgSend, the keeper's Transfer that measures the recipient's real "
+             "increase, direct ERC20 transfers and burns, bank sends; ERC20s as abstract ledgers of the three kinds in the repository: "
+             "module-owned minter, standard, 10% fee-on-transfer): for every history of these operations with any amounts, recipients "
+             "and senders other than the module account, including operations inside frames that revert, every coin-born mapping has "
+             "ERC20 totalSupply <= escrowed coin, every ERC20-born mapping has bank supply <= the module's ERC20 balance, and each ERC20 "
+             "and each denom is in at most one mapping (invariant proved per operation, lifted by induction over the history). "
+             "Correspondence: generated histories on the real keeper / msg server / precompile with the real contract bytecode; the "
+             "model predicts every mapping, supply and balance on both sides after every operation.",
+        note="Trusted: Lean kernel; harness. Solidity bytecode is not modelled: the ledger semantics of the three token kinds "
+             "(in particular: a transfer debits the sender by exactly the amount — the property's 'standard token') is validated by the "
+             "correspondence only. Atomicity of failing / reverted operations is assumed here and is property C04 (with its known "
+             "findings). The module account never signs or calls (Op.WF). No 'erc20/…' supply exists without its mapping (NoOrphan, "
+             "hypothesis on the initial state, preserved).",
+        technique="Lean 4 proof (per-operation invariant preservation via effect lemmas on four measured quantities, induction over "
+                  "histories) + differential correspondence + property oracle",
+        ref="§7 C06"),
     "C08": dict(
         text="Lean 4 theorems over an executable model of the admission path of a Nibiru precompile call (the fork's "
              "runPrecompiledContract, requiredGas, decomposeInput, the Run switches with each handler's first guard, the places where a "
